@@ -29,6 +29,9 @@ var PrefixOps = []string{"!", "-", "+", "~", "^", "++", "--"}
 
 func (g *Gen) pick(l []string) string { return l[g.R.Intn(len(l))] }
 
+// Pick is pick for the harness binaries.
+func (g *Gen) Pick(l []string) string { return g.pick(l) }
+
 func (g *Gen) Ident() string { return g.pick(genIdents) }
 
 func (g *Gen) Leaf() string {
